@@ -11,7 +11,7 @@ use std::time::{Duration, UNIX_EPOCH};
 
 pub static DEF: PropDef = PropDef {
     id: "C15",
-    rule: "age: a regular file whose atime and mtime are set with utimensat at ns precision to different values (ctime read back), 'now' injected through Dependencies::now() as ts + k*period + delta with period in {86400 s, 60 s}, k in 0..400, delta in {-1 ns, 0, +1 ns, +/-1 s, +/-999999999 ns, random}, N in k-2..k+2 with all three prefixes, on each of the six tests -[acm]time/-[acm]min. newer: a reference file and an entry with independent timestamps, entry.X placed at ref.Y + {-1 ns, 0, +1 ns, -1 s, +1 s, far} for all nine XY over a,c,m plus -newer/-anewer/-cnewer (ctime relations produced by the order of the last inode change and by placing the other file's a/m time relative to the read-back ctime). Oracle: model from the statement on the READ-BACK timestamps: floor((now - ts)/period) compared with N; strict entry.X > ref.Y at full resolution. start-clock (the real binary, the real clock): a file that is k*period - margin old (margin 0.4-0.9 s) when find is spawned, with a command lasting margin + 0.25-0.5 s run by -exec before the time test is first evaluated (on the same entry, or on an earlier starting point), or after it (control); 'now' lies between the spawn and the start of that command (its record's timestamp), so k-1 complete periods are expected; cases in which that upper bound is not before the boundary are discarded. Non-trivial = age within 1 s of a period boundary, or entry.X within 1 s of ref.Y, or X != Y with ref's three timestamps not all on the same side of entry.X. Distinct = distinct case JSON.",
+    rule: "age: a regular file whose atime and mtime are set with utimensat at ns precision to different values (ctime read back), 'now' injected through Dependencies::now() as ts + k*period + delta with period in {86400 s, 60 s}, k in 0..400, delta in {-1 ns, 0, +1 ns, +/-1 s, +/-999999999 ns, random}, N in k-2..k+2 with all three prefixes, on each of the six tests -[acm]time/-[acm]min. newer: a reference file (in a quarter of the cases a symbolic link, whose own timestamps count in the default follow mode, to a file whose timestamps give the opposite answer) and an entry with independent timestamps, entry.X placed at ref.Y + {-1 ns, 0, +1 ns, -1 s, +1 s, far} for all nine XY over a,c,m plus -newer/-anewer/-cnewer (ctime relations produced by the order of the last inode change and by placing the other file's a/m time relative to the read-back ctime). Oracle: model from the statement on the READ-BACK timestamps: floor((now - ts)/period) compared with N; strict entry.X > ref.Y at full resolution. start-clock (the real binary, the real clock): a file that is k*period - margin old (margin 0.4-0.9 s) when find is spawned, with a command lasting margin + 0.25-0.5 s run by -exec before the time test is first evaluated (on the same entry, or on an earlier starting point), or after it (control); 'now' lies between the spawn and the start of that command (its record's timestamp), so k-1 complete periods are expected; cases in which that upper bound is not before the boundary are discarded. Non-trivial = age within 1 s of a period boundary, or entry.X within 1 s of ref.Y, or X != Y with ref's three timestamps not all on the same side of entry.X. Distinct = distinct case JSON.",
     assumptions: &["ages < 0, -daystart and -newerXt are outside the statement and not asserted", "timestamps are read back after set-up and again after the run (the run must not disturb them)", "equal ctimes (both changes in one kernel tick) occur by coincidence and are counted, not forced", "start-clock: find reads the clock no earlier than it is spawned and, if 'now' is fixed at start-up, no later than the first command it runs is started"],
     run,
     replay,
@@ -147,6 +147,10 @@ pub struct NewerCase {
     pub offset_ns: i64,
     /// for the cc pair: true = the entry's inode is changed last
     pub entry_changed_last: bool,
+    /// the reference is a symbolic link (default follow mode: its own timestamps count, as for
+    /// -newer); the file it points to has timestamps that would give the opposite answer
+    #[serde(default)]
+    pub ref_link: bool,
 }
 
 pub fn gen_newer(g: &mut Gen) -> NewerCase {
@@ -169,6 +173,7 @@ pub fn gen_newer(g: &mut Gen) -> NewerCase {
             _ => -86_400_000_000_000,
         },
         entry_changed_last: g.bool(),
+        ref_link: g.chance(1, 4),
     }
 }
 
@@ -184,7 +189,12 @@ fn touch_inode(p: &str) {
 
 pub fn check_newer(ctx: &mut Ctx, c: &NewerCase) -> Outcome {
     ctx.fresh_case_dir();
-    std::fs::write("c/ref", b"r").unwrap();
+    if c.ref_link {
+        std::fs::write("c/reft", b"r").unwrap();
+        std::os::unix::fs::symlink("reft", "c/ref").unwrap();
+    } else {
+        std::fs::write("c/ref", b"r").unwrap();
+    }
     std::fs::write("c/e", b"e").unwrap();
     set_times("c/ref", Some(c.ref_a), Some(c.ref_m));
     set_times("c/e", Some(c.ent_a), Some(c.ent_m));
@@ -224,6 +234,11 @@ pub fn check_newer(ctx: &mut Ctx, c: &NewerCase) -> Outcome {
     let ex = ts_of(&me, c.x);
     let ry = ts_of(&mr, c.y);
     let expect = ex > ry;
+    if c.ref_link {
+        // the link's target answers the other way round (where its Y can be set)
+        let t = split(if expect { ex + 86_400_000_000_000 } else { ex - 86_400_000_000_000 });
+        set_times("c/reft", Some(t), Some(t));
+    }
     let test = match (c.short_form, c.x, c.y) {
         (true, 'm', 'm') => "-newer".to_string(),
         (true, 'a', 'm') => "-anewer".to_string(),
@@ -245,7 +260,7 @@ pub fn check_newer(ctx: &mut Ctx, c: &NewerCase) -> Outcome {
     if got != expect || o.status != 0 {
         let rel = if ex == ry { "equal" } else if (ex - ry).abs() < 1_000_000_000 { "within-1s" } else { "far" };
         return fail(
-            format!("C15:{}:{}:{rel}", if test.len() == 8 { format!("-newer{}{}", c.x, c.y) } else { test.clone() }, if got { "selected-wrongly" } else { "missed" }),
+            format!("C15:{}:{}:{rel}{}", if test.len() == 8 { format!("-newer{}{}", c.x, c.y) } else { test.clone() }, if got { "selected-wrongly" } else { "missed" }, if c.ref_link { ":reference-is-a-symbolic-link" } else { "" }),
             format!("find c/e {test} c/ref\nentry.{} = {ex} ns, ref.{} = {ry} ns (difference {} ns): expected selected={expect}, observed {got}\nentry a/c/m = {:?}\nref   a/c/m = {:?}\nexit {} stderr {:?}", c.x, c.y, ex - ry, ['a', 'c', 'm'].iter().map(|w| ts_of(&me, *w)).collect::<Vec<_>>(), ref_ts, o.status, lossy(&o.stderr)),
         );
     }
@@ -257,6 +272,7 @@ pub fn check_newer(ctx: &mut Ctx, c: &NewerCase) -> Outcome {
         .class_if(sides_differ, "ref-timestamps-on-both-sides")
         .class_if(other_entry_differs, "other-entry-timestamp-would-answer-differently")
         .class_if(c.x == 'c' || c.y == 'c', "involves-ctime")
+        .class_if(c.ref_link, "reference-is-a-symbolic-link")
         .sample(json!({"cmd": format!("find c/e {test} c/ref"), "entry_minus_ref_ns": (ex - ry).to_string(), "selected": got}))
         .ok()
 }
